@@ -26,6 +26,8 @@ def tasks(tier, seed):
     for d, h in ((1, 1), (2, 2)):
         for st in ("zero_row", "alpha0", "generic"):
             t.append(("contracts.prox", "task", ("linear", (d, h, st), seed), to, f"linear_prox[{d}x{h},{st}]"))
+    t.append(("contracts.prox", "task", ("group_linear", (3, 2, [[0, 2], [1]], 0), seed), to, "group_linear_prox[zero group]"))
+    t.append(("contracts.prox", "task", ("group_linear", (2, 1, [[0, 1]], 0), seed), to, "group_linear_prox[zero group, h=1]"))
     for k, h, st in ((1, 1, "generic"), (2, 1, "alpha0"), (1, 2, "M0")):
         t.append(("contracts.prox", "task", ("hier", (k, h, st, 1), seed), to, f"hier_prox[{k},{h},{st}]"))
     for s in (dict(n=1, d=1, K=2, cuts=1), dict(n=2, d=2, K=2, cuts=1), dict(n=1, d=1, K=2, cuts=2)):
